@@ -537,8 +537,51 @@ def r7_failed_create_not_published(repo=None, rid="C02.R7"):
     which already names the new tmp file when its exclusive create fails (e.g. a stale tmp file of a killed run is in the
     way): unless that branch sets has_failure, closing the writer renames a file this session neither created nor closed."""
     from . import c10
-    return c10.r2_sticky_failure(repo, rid=rid, detected=[("digital_rf_create_hdf5_file", "H5Fcreate")],
-                                 title="a tmp file whose exclusive create failed is never published (failure flag set on that branch)")
+    r = c10.r2_sticky_failure(repo, rid=rid, detected=[("digital_rf_create_hdf5_file", "H5Fcreate")],
+                              title="a tmp file whose exclusive create failed is never published (failure flag set on that branch)")
+    # the same for an explicit probe: `access(<the path handed to H5Fcreate>)` finding a file - the tmp name is taken by a file this
+    # writer did not create; refusing without the failure flag leaves the remembered name pointing at it, and close renames it
+    tu = cfront.lib(repo)
+    fn = tu.fn("digital_rf_create_hdf5_file")
+    g = _cfg.build_c(fn)
+    creates = fn.calls(("H5Fcreate",))
+    if not creates:
+        raise AnalysisError("digital_rf_create_hdf5_file: H5Fcreate not found")
+    tmp_paths = {c.args[0].path() for c in creates if c.args and c.args[0].path()}
+    setters = c10._failure_setters(g)
+    for n in g.nodes:
+        if n.kind != "cond" or n.ast is None:
+            continue
+        for c in n.ast.calls(("access", "stat", "lstat")):
+            if not c.args or c.args[0].path() not in tmp_paths:
+                continue
+            e = n.ast.strip()
+            exists_label = None
+            if e.kind == "BinaryOperator" and e.opcode in ("!=", "==") and e.children[1].intval() in (-1, 0) and e.children[0].strip(casts=True) is not None:
+                k = e.children[1].intval()
+                if (e.opcode, k) in (("!=", -1), ("==", 0)):
+                    exists_label = "T"
+                elif (e.opcode, k) in (("==", -1), ("!=", 0)):
+                    exists_label = "F"
+            elif e.kind == "UnaryOperator" and e.opcode == "!":
+                exists_label = "T"
+            elif e.kind == "CallExpr":
+                exists_label = "F"
+            if exists_label is None:
+                raise AnalysisError("digital_rf_create_hdf5_file: existence test on the tmp path not recognised: %s" % n.label[:60])
+            starts = [b for b, l in g.succ[n.id] if l == exists_label]
+            reach = g.reach(starts, avoid=setters)
+            bad = [x for x in g.nodes if x.kind == "return" and x.id in reach and x.ast.children and x.ast.children[0].intval() not in (None, 0)]
+            site = "%s:%s digital_rf_create_hdf5_file `%s`" % (C_LIB, n.line, n.label[:50])
+            if bad:
+                r.violation(C_LIB, fn.name, "%s -> %s without has_failure" % (n.label[:50], bad[0].label[:20]),
+                            "the tmp name this call is about to create is found taken (a file left by a killed writer) and the call is "
+                            "refused without setting has_failure, after the writer object already remembers that name: closing the writer "
+                            "finds a file under the remembered name and renames it - a file this session neither created nor closed is "
+                            "published", line=n.line)
+            else:
+                r.ok(site, "a tmp name found taken sets has_failure before the refusal")
+    return r
 
 
 def rules(repo=None):
